@@ -143,6 +143,8 @@ def run(facts, tier):
     c04.r04_9(facts, res)
     c04.r04_10(facts, res)
     c04.r04_11(facts, res)
+    c04.r04_12(facts, res)
+    c04.r04_13(facts, res)
     from props import c01, c15
     c01.r01_3(facts, res)       # every item of the input reaches the information set (xe leaves the others unchanged)
     c15.r15_6(facts, res, "C17-10")
@@ -150,5 +152,11 @@ def run(facts, tier):
     from props import c13
     c13.r13_5(facts, res, "C17-7")
     c13.r13_7(facts, res, "C17-9")     # xe appends the replacement to nodes it has just emptied or detached
+    c13.r13_12(facts, res, "C17-11")   # .. and remove_child of a merged text node takes every piece with it, whatever its kind
+    # "xq prints exactly the selection": the abbreviations select what their expansions select (R08-3: @, empty step, the three
+    # expansions of `//`) and a numeric predicate is position() = n (R08-4)
+    from props import c08
+    c08.r08_3(facts, res)
+    c08.r08_4(facts, res)
     res.functions_analysed = sum(1 for f in facts.fns.values() if f["crate"] in TOOLS)
     return res
